@@ -309,6 +309,10 @@ def jobs(tier):
     out.append(Store(n, ["temp"], ["spike_test", "gross_range_test"], False, True, aggregate=True))
     out.append(Store(3, ["temp", "salt"], ["spike_test"], True, True, aggregate=True, partial=True))
     out.append(Store(0, ["temp"], ["spike_test"], True, True))
+    # filters whose survivors are the roll-up only / nothing at all: the axes (and one row per input row) are still due
+    out.append(Store(n, ["temp"], ["spike_test", "gross_range_test"], False, True, include=["rollup"], aggregate=True))
+    out.append(Store(n, ["temp", "a b"], ["spike_test"], True, True, exclude=["temp", "a b"]))
+    out.append(Store(n, ["temp"], ["spike_test", "gross_range_test"], False, True, include=["no_such_test"]))
     out.append(Store(3, ["temp"], ["spike_test", "gross_range_test"], True, True, partial=True))
     out.append(Collision(2 if tier == "quick" else 4))
     out.append(Store(2, ["a b", "a_b"], ["spike_test"], False, False))
